@@ -10,6 +10,8 @@ CONSTANTS
   Plus = "max"
   Times = "add"
   LeafKind = "lin"
+  CopyCap = 99
+  ElimAll = FALSE
   Param = FALSE
   Tag = "sp_maxadd"
 INVARIANT Inv_OracleInputs
